@@ -328,7 +328,11 @@ func c15Run(r *lib.Run, cfg *lib.Cfg, s *listSite, hist []omOp, w func(map[strin
 				}
 			case op.name == "AppendNilKey":
 				if err == nil {
-					return fail("nil-key-accepted", feat, "Append accepted an element whose key leaf is nil")
+					kind := "pointer-key"
+					if e.Elem().Field(s.kfs[0].Idx).Kind() == reflect.Interface {
+						kind = "union-key"
+					}
+					return fail("nil-key-accepted", feat+":"+kind, "Append accepted an element whose key leaf is nil ("+kind+")")
 				}
 			case model.has(t.id):
 				if err == nil {
